@@ -60,6 +60,28 @@ def install_tripwire():
     del orig_time
 
 
+def poison_uninitialised(ambient):
+    """np.empty returns unspecified memory.  Fill it with a value that differs
+    between the runs that are compared: a result that depends on uninitialised
+    memory then shows up as a difference between two equal-seed runs."""
+    orig_empty = np.empty
+
+    def empty(shape, dtype=float, *a, **kw):
+        arr = orig_empty(shape, dtype, *a, **kw)
+        try:
+            if arr.dtype.kind == "f":
+                arr.fill(ambient * 3.0 + 0.5)
+            elif arr.dtype.kind in "iu":
+                arr.fill(ambient % 120)
+            elif arr.dtype.kind == "b":
+                arr.fill(bool(ambient % 2))
+        except (ValueError, TypeError):
+            pass
+        return arr
+
+    np.empty = empty
+
+
 def main():
     cfg = json.loads(sys.argv[1])
     ambient = int(cfg.pop("ambient"))
@@ -67,6 +89,7 @@ def main():
     random.seed(ambient)
     time.sleep(0.01 * (ambient % 7))
     install_tripwire()
+    poison_uninitialised(ambient)
     from vf.core import ensure_deps
     ensure_deps()
     from vf.algos import make_run
